@@ -31,6 +31,47 @@ def waker_vec_fields(F):
     return sig, out
 
 
+def waker_holders(F, wv):
+    """(adt, field) of `Option<S>` fields where S is the struct that owns a waiting-waker vector: the representation
+    `pending: Option<Pending { wakers, entries_before_wake }>`, in which `no wakers waiting` is None and releasing the wakers is
+    overwriting the field with None (the old value, and every signal in it, is dropped)"""
+    owners = {a for a, _ in wv}
+    out = []
+    for a in F.adts.values():
+        if a["crate"] != BG or a["def"] in owners:
+            continue
+        for v in a["variants"]:
+            for f in v["fields"]:
+                if f["ty"].startswith("core::option::Option<") and any(f["ty"] == "core::option::Option<%s>" % o for o in owners):
+                    out.append((a["def"], f["name"]))
+    return out
+
+
+class _Overwrite:
+    """release of the waiting wakers by overwriting their holder with None; stands where a call site stands for `clear()`"""
+    def __init__(self, bb):
+        self.bb, self.name = bb, "overwritten with None (drops the signals)"
+
+
+def holder_overwrites(F, b, holders, pr=None):
+    """blocks of b in which a holder field reached from a parameter is assigned None"""
+    out = []
+    pr = pr or Prov(b)
+    hn = {fn for _, fn in holders}
+    for i in b.live_blocks():
+        for st in b.stmts(i):
+            if st["k"] != "assign" or not st["lhs"].get("p"):
+                continue
+            fs = [e for e in st["lhs"]["p"] if e[0] == "f"]
+            if not fs or fs[-1] is not [e for e in st["lhs"]["p"]][-1] or fs[-1][2] not in hn or not any((fs[-1][3], fs[-1][2]) == h for h in holders):
+                continue
+            rv = st["rv"]
+            o = pr.operand(rv["op"]) if rv["k"] == "use" else ({("agg", rv.get("adt"), rv.get("variant"))} if rv["k"] == "agg" else set())
+            if any(x[0] == "agg" and x[2] == "None" for x in o) and not any(x[0] == "agg" and x[2] == "Some" for x in o):
+                out.append(_Overwrite(i))
+    return out
+
+
 def bound_fields(F, wv):
     """usize fields of the tracker that hold the ring bound: set once in a constructor from ArrayQueue::capacity (or len), never
     stored to by any method.  Returns {field: 'capacity' | 'len-early'}"""
@@ -112,21 +153,25 @@ def run(ctx):
     ctx.floor("R04.1", "flush-signal types owning a oneshot sender", len(sig), 1)
     ctx.floor("R04.1", "waiting-waker vectors", len(wv), 1)
     wake_ops = ("clear", "drain", "truncate", "pop", "remove", "swap_remove", "retain", "split_off")
+    holders = waker_holders(F, wv)
     trackers = []
     for b in F.all_bodies(BG):
         if not in_bg(F, b):
             continue
         pr = None
         for c in b.calls():
-            if not (c.is_in("alloc::vec", *["Vec::" + w for w in wake_ops]) or c.is_("core::mem::take", "core::mem::replace")):
+            if not (c.is_in("alloc::vec", *["Vec::" + w for w in wake_ops]) or c.is_("core::mem::take", "core::mem::replace", "core::option::Option::<T>::take")):
                 continue
             if not c.args:
                 continue
             pr = pr or Prov(b)
             o = pr.operand(c.args[0])
-            if not any(x[0] == "arg" and x[2] and any(x[2][-1] == fn for _, fn in wv) for x in o):
+            if not any(x[0] == "arg" and x[2] and any(x[2][-1] == fn for _, fn in wv + holders) for x in o):
                 continue
             trackers.append((b, c))
+        if holders:
+            for ow in holder_overwrites(F, b, holders, pr):
+                trackers.append((b, ow))
     ctx.floor("R04.1", "sites releasing the waiting wakers", len(trackers), 1)
     tracker_bodies = {}
     virtual_release = {}      # body def -> call blocks of helpers that release the wakers
@@ -411,6 +456,8 @@ def run(ctx):
                 fs = place_fields(lhs)
                 if not (has_deref(lhs) and len(fs) == 1 and any(x[0] == "arg" and x[1] == 1 for x in pr.local(lhs["l"]))):
                     continue
+                if any(fs[0] == hn_ for _, hn_ in holders):
+                    continue         # the holder of (wakers, counter) as a whole: see `built` / the overwrite with None below
                 if st["rv"]["k"] != "use":
                     stores.setdefault(fs[0], []).append((i, {("op", st["rv"]["k"])}))
                 else:
@@ -442,6 +489,19 @@ def run(ctx):
                                 elif y[0] != "via":
                                     o_.add(("op", "helper:" + hb.name))
                     stores.setdefault(fs[0], []).append((i, o_))
+        # the counter as a field of the struct that is built together with the waiting vector (`Pending { wakers, entries_before_wake:
+        # bound }`): building it is storing the counter (and collecting the wakers moved into it)
+        owners_ = {a for a, _ in wv}
+        built = []        # (block, origins of the vector moved in)
+        for i in tb.live_blocks():
+            for st in tb.stmts(i):
+                if st["k"] == "assign" and st["rv"]["k"] == "agg" and st["rv"].get("adt") in owners_ and st["rv"].get("fields"):
+                    for fn_, op_ in zip(st["rv"]["fields"], st["rv"]["ops"]):
+                        if fn_ in wvf:
+                            built.append((i, {y for y in pr.operand(op_) if y[0] == "call"}))
+                        elif op_local(op_) is not None and tb.local_ty(op_local(op_)) == "usize" or (op_const(op_) or {}).get("ty") == "usize":
+                            stores.setdefault(fn_, []).append((i, set(pr.operand(op_))))
+        built_vecs = set().union(*[o for _, o in built]) if built else set()
         bflds = set(bound_fields(F, wv))
         is_bound = lambda x: (x[0] == "call" and x[1] in bound_calls) or x[0] == "helper-bound" or (x[0] == "arg" and x[1] == 1 and len(x[2]) == 1 and x[2][0] in bflds)
         counters = [f for f, ss in stores.items() if any(any(is_bound(x) for x in o) for _, o in ss)]
@@ -452,9 +512,13 @@ def run(ctx):
             continue
         cf = counters[0]
         releases = {c.bb for b_, c in trackers if b_ is tb} | virtual_release.get(tb.def_, set())
+        # overwriting the holder with None resets the counter along with the wakers: a constant store that is a release by construction
+        for b_, c in trackers:
+            if b_ is tb and isinstance(c, _Overwrite):
+                stores[cf].append((c.bb, {("const", ("none", "None"))}))
         is_push = lambda bd, bpr, x: (x.is_in("alloc::vec", "Vec::push", "Vec::extend", "Vec::append", "Vec::extend_from_slice", "Vec::insert") or
                                       (x.is_trait_method("Extend", "extend") and "Vec<" in (x.self_ty or ""))) and x.args and \
-            any(y[0] == "arg" and y[1] == 1 and y[2] and y[2][-1] in wvf for y in bpr.operand(x.args[0]))
+            any((y[0] == "arg" and y[1] == 1 and y[2] and y[2][-1] in wvf) or (bd is tb and y in built_vecs) for y in bpr.operand(x.args[0]))
         pushes = [x for x in tb.calls() if is_push(tb, pr, x)]
         for x, hb in helper_calls:
             hpr = Prov(hb)
@@ -483,7 +547,19 @@ def run(ctx):
                 for x in subs:
                     c = _cs_at(tb, x[1])
                     a0, a1 = pr.operand(c.args[0]), pr.operand(c.args[1])
-                    okd = (any(y[0] == "arg" and y[1] == 1 and y[2] and y[2][-1] == cf for y in a0) and
+                    def reads_counter(op_):
+                        if any(y[0] == "arg" and y[1] == 1 and y[2] and y[2][-1] == cf for y in pr.operand(op_)):
+                            return True
+                        # `pending.counter` with `pending` obtained from the holder through an adapter (`self.pending.as_mut()`)
+                        l_ = op_local(op_)
+                        for kind_, bb2_, j_, node_ in (tb.defs().get(l_, []) if l_ is not None else []):
+                            if kind_ == "assign" and node_["k"] == "assign" and node_["rv"]["k"] == "use":
+                                pl_ = op_place(node_["rv"]["op"])
+                                if pl_ and place_fields(pl_) and place_fields(pl_)[-1] == cf and any(
+                                        y[0] == "arg" and y[1] == 1 and y[2] and any(y[2][-1] == hn_ for _, hn_ in holders) for y in pr.local(pl_["l"])):
+                                    return True
+                        return False
+                    okd = (reads_counter(c.args[0]) and
                            all(y[0] == "arg" and y[1] > 1 and ((not y[2] and tb.local_ty(y[1]) == "usize") or (len(y[2]) == 1 and tb.local_ty(y[1]) in drain_status(F)[1]))
                                for y in a1) and c.name == "saturating_sub")
                 ctx.check(okd, "R04.4", key + "#counter-decrement-by-processed-entries", loc(tb, bb_),
@@ -492,7 +568,7 @@ def run(ctx):
         # after new signals were collected the counter is armed with the bound on every path to the exit
         bound_stores = {bb_ for bb_, o in stores[cf] if o and all(x[0] == "via" or is_bound(x) for x in o) and any(is_bound(x) for x in o)}
         empties = [x for x in tb.calls() if x.is_in("alloc::vec", "Vec::is_empty") and x.args and
-                   any(y[0] == "arg" and y[1] == 1 and y[2] and y[2][-1] in wvf for y in pr.operand(x.args[0]))]
+                   any((y[0] == "arg" and y[1] == 1 and y[2] and y[2][-1] in wvf) or y in built_vecs for y in pr.operand(x.args[0]))]
         for p in pushes:
             after = tb.reachable_after(p.bb)
             infeasible = set()
@@ -523,7 +599,7 @@ def run(ctx):
             for rb in local_callee_bodies(F, c):
                 if rb.crate != BG:
                     continue
-                tl = [i for i, l in enumerate(rb.locals) if any(l.get("head", {}).get("adt") == a for a, _ in wv) and not l.get("head", {}).get("refs")]
+                tl = [i for i, l in enumerate(rb.locals) if any(l.get("head", {}).get("adt") == a for a, _ in wv + waker_holders(F, wv)) and not l.get("head", {}).get("refs")]
                 if not tl:
                     continue
                 dom = rb.dominators()
